@@ -155,6 +155,41 @@ func C14(p *Prog, r *Run) {
 			}
 		}
 		r.Floor("recursive Depth calls", len(calls), 1)
+		// every incoming link is followed unless its source is marked: an iteration of the link loop that does not recurse
+		// must have seen the source's visited mark set
+		for _, c := range calls {
+			l := scanLoopOf(Loops(depth), c.Block())
+			if l == nil || !loopRangesOver(tm, l, "recv.Incoming") {
+				r.Bad("Depth.links.loop", p.Pos(c.Pos()), "the recursion is not inside a loop over all incoming links of the node")
+				continue
+			}
+			paths, complete := EnumIterPaths(depth, l, 500)
+			if !complete {
+				r.Undecided("Depth.links.paths", p.Pos(c.Pos()), "too many paths")
+				continue
+			}
+			r.PathsExplored += len(paths)
+			want := tm.Of(c.Common().Args[0]).String() + ".visited"
+			okAll := true
+			var wit []string
+			for _, ip := range paths {
+				if ip.End != "back" || ip.OnPath(c) {
+					continue
+				}
+				seen := false
+				for _, g := range ip.Conds {
+					gt := tm.Of(g.Cond)
+					if gt.String() == want && g.True {
+						seen = true
+					}
+				}
+				if !seen {
+					okAll = false
+					wit = ip.Describe(p)
+				}
+			}
+			r.Check(okAll, "Depth.links.all-followed", p.Pos(c.Pos()), "a link is skipped only when its source node is marked visited", "an incoming link can be skipped although its source is not marked visited: paths through that link are not measured and the depth is under-reported", wit...)
+		}
 	})
 
 	r.Rule("C14.3", "cap: ErrMaximalNetDepthExceeded originates only under cap>0 && d>cap (strict) and is returned together with the cap; recursion errors are propagated unchanged", func() {
@@ -274,6 +309,32 @@ func C14(p *Prog, r *Run) {
 			}
 		}
 		r.Floor("Depth calls in MaxActivationDepthWithCap", len(calls), 1)
+		// every value the function returns is the shortcut 1, the running maximum, or what a failed Depth call returned
+		for _, b := range mx.Blocks {
+			ret, ok := b.Instrs[len(b.Instrs)-1].(*ssa.Return)
+			if !ok {
+				continue
+			}
+			et := tmx.Of(ret.Results[1])
+			for _, a := range tmx.Of(ret.Results[0]).Alternatives() {
+				okV := false
+				switch {
+				case a.Op == "const" && a.Name == "1":
+					okV = true
+				case a.Op == "const" && et.Op != "nil":
+					okV = true // a constant returned together with an error (unsupported network)
+				case a.Op == "const" && a.Name == "0":
+					okV = true // the initial value of the running maximum
+				case a.Op == "extract" && isCallTo(a.Args[0], depth):
+					okV = true
+				case a.Op == "loop":
+					okV = true
+				}
+				if !okV {
+					r.Bad("MaxDepth.result-origin", p.Pos(ret.Pos()), "MaxActivationDepthWithCap can return "+a.String()+", which is neither the shortcut, the running maximum over the outputs nor the result of a Depth query of this call (a stored value ignores the cap and the current topology)")
+				}
+			}
+		}
 		// shortcut
 		nShort := 0
 		for _, b := range mx.Blocks {
